@@ -35,7 +35,7 @@ COMPONENTS = {
 ASSUMPTIONS = ["phase after a gap is implementation-defined and judged only by Python==Rust; cadence is judged "
                "inside unit-tick stretches relative to the target the implementation itself holds at stretch start",
                "default preserve_phase=true, timer_scale=1.0 only"]
-PROBES = ["machine_restart", "both_fire_same_cycle", "gap_ge_3_periods", "restore_target_in_past", "period_one", "disabled_stretch",
+PROBES = ["host_reset", "host_reset_timers_off", "machine_restart", "both_fire_same_cycle", "gap_ge_3_periods", "restore_target_in_past", "period_one", "disabled_stretch",
           "zero_period", "reset_mid_period", "period_change", "i32_clamp", "machine_wait_cover", "machine_halt_idle"]
 
 SMALL = [(a, b) for a in range(13) for b in range(13)]
@@ -128,7 +128,18 @@ def generate(batch: str, r: Rng, idx: int, tier: str) -> Dict[str, Any]:
     for _ in range(rr.range(0, 2)):
         k = rr.range(1, n - 1)
         scn["ops"].append([k, "restart"])
-    scn["ops"].sort(key=lambda o: (o[0], 0 if o[1] == "restart" else 1))
+    # the reset button in mid-run (Python machine; the Rust runtime has no whole-machine reset): sometimes with the
+    # timers switched off around it.  Afterwards the timers must behave as after power-on.
+    rh = r.child("hostreset")
+    if executor == "py-machine" and variant == "plain" and rh.chance(1, 3) and n >= 40:
+        k = rh.range(8, n - 12)
+        if rh.chance(1, 2):
+            scn["ops"].append([rh.range(2, k), "timers", False])
+            scn["ops"].append([rh.range(k + 1, n - 2), "timers", True])
+        scn["ops"].append([k, "hostreset"])
+        scn["ops"] = [o for o in scn["ops"] if not (o[1] == "restart" and abs(o[0] - k) <= 1)]
+    order = {"timers": 0, "hostreset": 1, "restart": 2}
+    scn["ops"].sort(key=lambda o: (o[0], order.get(o[1], 3)))
     scn["kind"] = "machine"
     return scn
 
@@ -332,9 +343,22 @@ def _check_machine(scn: Dict[str, Any], hist: Dict[str, Any]) -> List[dict]:
     pre_map = hist.get("preobs", {})
     t = scn["timer"]
     restarts = set(o[0] for o in scn["ops"] if o[1] == "restart")
+    switches = {o[0]: bool(o[2]) for o in scn["ops"] if o[1] == "timers"}
+    resets = set(o[0] for o in scn["ops"] if o[1] == "hostreset")
+    t = dict(t)
     for k in range(len(obs) - 1):
         pre = pre_map.get(str(k), obs[k])
         post = obs[k + 1]
+        if k in switches:
+            t["enabled"] = switches[k]
+        if k in resets:
+            # power-on phase: cycle counter 0, first MTI at its period, first STI at its period — whatever the
+            # machine did before and whether or not the timers are switched on at this moment
+            want = (0, t["mti"] if t["mti"] > 0 else pre[machine.O_NMTI], t["sti"] if t["sti"] > 0 else pre[machine.O_NSTI])
+            got = (pre[machine.O_CYC], pre[machine.O_NMTI], pre[machine.O_NSTI])
+            if got != want:
+                V("reset_phase", k, f"after the host reset the machine has (cycle, next MTI, next STI) = {got}, power-on is {want} "
+                  f"(timers {'on' if t['enabled'] else 'off'})", level="machine", timers_on=bool(t["enabled"]))
         if k in restarts and k > 0:
             a, b = obs[k], pre
             if (a[machine.O_NMTI], a[machine.O_NSTI], a[machine.O_CYC]) != (b[machine.O_NMTI], b[machine.O_NSTI], b[machine.O_CYC]):
@@ -439,6 +463,10 @@ def stats(scn: Dict[str, Any], hist: Dict[str, Any]) -> Dict[str, Any]:
             probes["machine_halt_idle"] = 1
         if any(o[1] == "restart" for o in scn["ops"]):
             probes["machine_restart"] = 1
+        if any(o[1] == "hostreset" for o in scn["ops"]):
+            probes["host_reset"] = 1
+            if any(o[1] == "timers" for o in scn["ops"]):
+                probes["host_reset_timers_off"] = 1
         return {"nontrivial": fired > 0, "sig": digest([scn["prog"]["image"], scn["timer"]]),
                 "faults": {"wait_burst": probes.get("machine_wait_cover", 0), "halt_idle": probes.get("machine_halt_idle", 0)},
                 "probes": probes, "cycles": obs[-1][machine.O_CYC] if obs else 0, "boundaries": len(obs) - 1}
